@@ -47,14 +47,26 @@ def gen_align(rng, tier):
         if ne == 1:
             ne = 2     # a one-atom end molecule returns before the optimiser is reached
     p_h = rng.choice([0.0, 0.3, 0.6, 0.9])
-    start = gen.mol_spec(rng, "SPC", ns, p_hydrogen=p_h, tree_style=None)
-    end = gen.mol_spec(rng, "SPC", ne, p_hydrogen=p_h, tree_style=None)
+    guess = None
+    n_res = 1
+    if min(ns, ne) >= 2 and rng.random() < 0.3:
+        # multi-residue molecules: restrictions=None lets the alignment guess the pairs by residue matching (or not)
+        n_res = rng.randint(2, min(4, ns, ne))
+        guess = {"auto": rng.random() < 0.75, "omit_flag": rng.random() < 0.5}
+    start = gen.mol_spec(rng, "SPC", ns, p_hydrogen=p_h, tree_style=None, n_res=n_res)
+    end = gen.mol_spec(rng, "SPC", ne, p_hydrogen=p_h, tree_style=None, n_res=n_res)
     for spec in (start, end):
         spec["positions"] = (np.array(spec["positions"]) + np.array(gen.rvec(rng, 5.0))).tolist()
+        if rng.random() < 0.3:
+            # hydrogens named the other way round ("1H2": number first); the element is still the letters
+            spec["atom_names"] = [(nm[1:][:1] or "1") + "H" + nm[1:][1:2] if nm.startswith("H") and rng.random() < 0.5 else nm
+                                  for nm in spec["atom_names"]]
     n_r = rng.choice([0, 1, 2, 5, 12])
     restr = [[rng.randrange(ns), rng.randrange(ne)] for _ in range(n_r)]
     if restr and rng.random() < 0.3:
         restr.append(list(restr[0]))
+    if guess is not None:
+        restr = []
     reuse = None
     if rng.random() < 0.25:
         # an Alignment that has already aligned ANOTHER pair (other sizes, hydrogens elsewhere) is emptied and re-used
@@ -62,7 +74,7 @@ def gen_align(rng, tier):
         reuse = {"start": gen.mol_spec(rng, "OLD", o_ns, p_hydrogen=rng.choice([0.3, 0.6])),
                  "end": gen.mol_spec(rng, "OLD", o_ne, p_hydrogen=rng.choice([0.3, 0.6])),
                  "ignore_h": rng.random() < 0.8}
-    return {"mode": "align", "reuse": reuse, "start": start, "end": end, "restraints": restr, "ignore_h": rng.random() < 0.6,
+    return {"mode": "align", "reuse": reuse, "guess": guess, "start": start, "end": end, "restraints": restr, "ignore_h": rng.random() < 0.6,
             "deform": rng.choice([None, [0], [0, 1], [1, 0, 2] if min(ns, ne) >= 2 else [0, 1]]),
             "as_tuples": rng.random() < 0.5}
 
@@ -110,11 +122,12 @@ def gen_manager(rng, tier):
         target = names[rng.choice(with_end)]
         without_end = [names[s] for s in present if s not in with_end]
         kinds = ["unknown_restr", "unknown_deform", "unknown_ignore", "fragment_restr", "fragment_deform", "fragment_ignore", "tuple_len", "index_range_start", "index_range_end",
+                 "index_boundary_start", "index_boundary_end",
                  "deform_not_sequence", "deform_too_long", "ignore_not_bool"]
         if without_end:
             kinds.append("species_without_end")
         # an unknown name that is a FRAGMENT of the known ones (prefix, suffix, separator, empty): only exact names count
-        frags = [target[:-1], target[1:], target[:1], "", ", ", target + ", ", target.lower()]
+        frags = [target[:-1], target[1:], target[:1], "", ", ", target + ", "]
         known = set(names.values())
         frags = [f for f in frags if f not in known]
         bad = {"kind": rng.choice(kinds), "target": target, "other": without_end[0] if without_end else None,
@@ -195,13 +208,42 @@ def exec_align(trace, ctx):
         ali = Alignment(start, end)
     restr = [tuple(r) if trace["as_tuples"] else list(r) for r in trace["restraints"]]
     given = [tuple(r) for r in trace["restraints"]]
+    g = trace.get("guess")
+    kwargs = {}
+    if g is not None:
+        # nothing is given: the pairs that must reach the optimiser are the guesser's (start index, end index) pairs --
+        # judged here against the clauses of the statement -- or none at all when guessing is switched off
+        restr = None
+        given = []
+        if g["auto"]:
+            from gaddlemaps import guess_protein_restrains
+            try:
+                given = [tuple(int(x) for x in pr_) for pr_ in guess_protein_restrains(ali.start, ali.end)]
+            except Exception as e:
+                ctx.violate(P, "guess-raised", f"guess_protein_restrains raised {type(e).__name__}: {e} on two molecules with the "
+                                               f"same residue names")
+                return
+            groups = []
+            o1 = o2 = 0
+            for r1, r2 in zip(ali.start.residues, ali.end.residues):
+                groups.append((range(o1, o1 + len(r1)), range(o2, o2 + len(r2))))
+                o1 += len(r1)
+                o2 += len(r2)
+            if not check_pairs(ctx, given, ns, ne, groups, "guessed through the alignment"):
+                return
+            ctx.probe("restraints_guessed_by_the_alignment")
+            if not (g["omit_flag"]):
+                kwargs["auto_guess_protein_restrictions"] = True
+        else:
+            kwargs["auto_guess_protein_restrictions"] = False
+            ctx.probe("guessing_switched_off")
     old_sf = Alignment.STEPS_FACTOR
     Alignment.STEPS_FACTOR = 1
     try:
         with patched(A, "minimize_molecules", stub):
             try:
                 ali.align_molecules(restrictions=restr, deformation_types=None if trace["deform"] is None else tuple(trace["deform"]),
-                                    ignore_hydrogens=trace["ignore_h"])
+                                    ignore_hydrogens=trace["ignore_h"], **kwargs)
             except Exception as e:
                 ctx.op("align", "raised")
                 ctx.violate(P, "alignment-raised", f"align_molecules raised {type(e).__name__}: {e}", key=type(e).__name__)
@@ -217,7 +259,14 @@ def exec_align(trace, ctx):
     fixed, mobile = (ali.start, ali.end) if start_fixed else (ali.end, ali.start)
     fpos = np.array(fixed.atoms_positions)
     mpos = np.array(mobile.atoms_positions)
-    felem = [a.element for a in fixed]
+    import re as _re
+    felem = []
+    for a in fixed:
+        # (the documented rule, evaluated here: the element is the first run of letters of the atom name)
+        runs = _re.findall(r"[A-Za-z]+", a.name)
+        felem.append(runs[0] if runs else "")
+    if any(_re.match(r"\d", a.name) and e == "H" for a, e in zip(fixed, felem)):
+        ctx.probe("hydrogen_named_number_first")
     ctx.nontrivial = True
     # the mobile array is the mobile molecule, atom by atom
     if call["mol2"].shape != mpos.shape or not np.array_equal(call["mol2"], mpos):
@@ -421,7 +470,7 @@ def exec_manager(trace, ctx):
                 ignore = dict(ignore or {})
                 ignore[frag] = True
         elif k == "species_without_end":
-            which = ctx.trace["bad"]["other"]
+            which = bad["other"]
             ignore = dict(ignore or {})
             ignore[which] = True
         elif k == "tuple_len":
@@ -433,6 +482,12 @@ def exec_manager(trace, ctx):
         elif k == "index_range_end":
             restr = dict(restr or {})
             restr[t] = [(0, 10 ** 6)]
+        elif k in ("index_boundary_start", "index_boundary_end"):
+            # the first index that does not exist (the number of atoms)
+            sp_i = next(s_ for s_ in trace["with_end"] if species[s_]["name"] == t)
+            n_s, n_e = len(species[sp_i]["atom_names"]), len(trace["ends"][str(sp_i)]["positions"])
+            restr = dict(restr or {})
+            restr[t] = [(n_s, 0)] if k == "index_boundary_start" else [(0, n_e)]
         elif k == "deform_not_sequence":
             deform = dict(deform or {})
             deform[t] = 5
@@ -471,6 +526,11 @@ def exec_manager(trace, ctx):
             raised = e
     ctx.steps += 1
     ctx.nontrivial = True
+    if bad and bad["kind"] == "species_without_end" and raised is None:
+        # an option for a species the system KNOWS but that has no end molecule: the statement only promises rejection of
+        # unknown names; accepted, it must simply reach nobody (the routing clauses below)
+        ctx.probe("option_for_species_without_end_accepted")
+        bad = None
     if bad and pr:
         if raised is None:
             ctx.violate(P, "malformed-option-accepted", f"option error '{bad['kind']}' was not rejected", key=bad["kind"])
@@ -483,7 +543,8 @@ def exec_manager(trace, ctx):
         return
     if bad and not pr:
         # restrictions are declared as already parsed: only their validation is skipped
-        if bad["kind"] in ("unknown_restr", "fragment_restr", "tuple_len", "index_range_start", "index_range_end"):
+        if bad["kind"] in ("unknown_restr", "fragment_restr", "tuple_len", "index_range_start", "index_range_end",
+                           "index_boundary_start", "index_boundary_end"):
             ctx.op("manager", "unparsed-bad")
             return
         if raised is None:
@@ -505,6 +566,11 @@ def exec_manager(trace, ctx):
             return
         nm = owner[0]
         got_names.append(nm)
+        # ... and that alignment really holds this species' two molecules
+        held = (getattr(self_ali.start, "name", None), getattr(self_ali.end, "name", None))
+        if held != (nm, nm):
+            ctx.violate(P, "alignment-holds-other-species", f"the alignment registered for species {nm} holds molecules named {held}")
+            return
         want_r = None
         if restr is not None and nm in restr and restr[nm]:
             want_r = [tuple(x) for x in restr[nm]]
